@@ -121,6 +121,9 @@ func (g *gen) val(t *Type) *Val {
 func (g *gen) att(depth int, outside []int) *Att {
 	a := &Att{T: g.typ(depth, outside)}
 	a.Meta = g.meta(false)
+	if a.Meta == nil && !g.cfg.noInfo && g.r.Chance(1, 10) {
+		a.EmptyMeta = true
+	}
 	a.Val = g.val(a.T)
 	if !g.cfg.noInfo {
 		if g.r.Chance(1, 5) {
@@ -228,6 +231,9 @@ func (g *gen) graph() *Graph {
 			u.Att = &Att{T: g.typ(d, lower)}
 		}
 		u.Att.Meta = g.meta(!u.Result)
+		if u.Att.Meta == nil && !g.cfg.noInfo && g.r.Chance(1, 8) {
+			u.Att.EmptyMeta = true
+		}
 		for k := range u.Att.Meta {
 			// Name() and, without a UID, ID() follow this entry: keep ID()s pairwise distinct
 			// (the memo of Dup is keyed by ID(); the envelope of the property has unique IDs)
@@ -250,6 +256,32 @@ func (g *gen) graph() *Graph {
 				}
 				u.Views = append(u.Views, v)
 			}
+		}
+	}
+	// twins: now and then a user type is a structural twin of an earlier one (the same
+	// body with the references to the two exchanged), so that a graph holds distinct user
+	// types that are structurally equal, mutually recursive ones included
+	if g.nu >= 2 && g.r.Chance(1, 4) {
+		i := g.r.Intn(g.nu - 1)
+		j := i + 1 + g.r.Intn(g.nu-1-i)
+		if !gr.Users[i].Result && !gr.Users[j].Result {
+			body := gr.Users[i].Att.clone()
+			(&Graph{Root: body}).walkTypes(func(t *Type) {
+				if t.K == "user" {
+					switch t.Ref {
+					case i:
+						t.Ref = j
+					case j:
+						t.Ref = i
+					}
+				}
+			})
+			for k := range body.Meta {
+				if body.Meta[k].K == "struct:type:name" {
+					body.Meta[k].V[0] = fmt.Sprintf("Renamed%d", j)
+				}
+			}
+			gr.Users[j].Att = body
 		}
 	}
 	all := make([]int, g.nu)
